@@ -740,4 +740,188 @@ example :
   simp only [this]
   decide
 
+/-! ## Frame totals, discarded samples inside a range, longer channels -/
+
+/-- **Summing a channel over the reported ranges gives the image totals even when discarded samples
+    lie inside a range, as long as they carry no counts** (generalises `sum_over_ranges_eq_image`, whose
+    hypothesis `hcont` makes `hzero` vacuous): every sample of the channel whose time lies between the
+    first and the last used sample of a block and is not a used sample has value zero. -/
+theorem sum_over_ranges_eq_image_zero (w : Wave) (data : List Int) (hlen : data.length = w.iw.length)
+    (hdt : 0 < w.dt) (hs : 0 ≤ w.start) (k m r : Nat) (hreg : w.Regular k m r) (P : Nat) (hP : 0 < P)
+    (δ : Int) (h1 : 1 ≤ δ) (h2 : δ ≤ w.dt)
+    (hzero : ∀ l, l < numBlocks m P → ∀ s ∈ C01.samplesFrom w.start w.dt data,
+      w.usedTs.getD (l * P * k) 0 ≤ s.1 →
+      s.1 ≤ w.usedTs.getD (min ((l + 1) * P) m * k - 1) 0 → s.1 ∉ w.usedTs → s.2 = 0)
+    (rs : List (Int × Int)) (hrs : w.lineRangesExcl P δ = some rs) :
+    sumOver ⟨w.start, w.dt, data⟩ rs = lineTotals P (pixelSums w.iw data 0) := by
+  have hk := hreg.pixelSize
+  have hm := hreg.numPix
+  have hul := hreg.used_length
+  obtain ⟨hk0, hm0, hr, hsub⟩ := hreg
+  rw [sumOver_blocks_zero w data hlen hdt hs k hk P hP δ h1 h2 (by rw [hm]; exact hzero) rs hrs, hm]
+  have hUD : (usedOf w.iw data).length = m * k + r := by
+    rw [usedOf_length _ _ hlen, ← hul]
+    unfold Wave.usedTs Wave.allTs
+    rw [usedOf_length _ _ (times_length _ _ _)]
+  rw [pixelSums_used]
+  have : w.iw.filter (· ≠ 0) = w.subset := rfl
+  rw [this, hsub, pixelSums_regular k hk0 m r _ (by omega), lineTotals_rows _ _ _ _ hP]
+
+/-- **Frame totals**: summing a timeline channel over the frame ranges `frame_timestamp_ranges()`
+    reports reproduces the totals of the image frames (blocks of `L·P` pixels) whenever the channel is
+    zero at the discarded samples *inside* a frame (the dead time between the lines of a frame: a frame
+    range is one interval and necessarily contains them).  Counts in the lead-in, between frames and
+    after the last pixel are arbitrary; the `δ` is the one the code computes. -/
+theorem sum_over_frame_ranges_eq_image (w : Wave) (data : List Int) (hlen : data.length = w.iw.length)
+    (hdt : 0 < w.dt) (hmax : w.dt ≤ 1000000000000000) (hs : 0 ≤ w.start) (k m r : Nat)
+    (hreg : w.Regular k m r) (P L : Nat) (hP : 0 < P) (hL : 0 < L)
+    (hzero : ∀ f, f < numBlocks m (L * P) → ∀ s ∈ C01.samplesFrom w.start w.dt data,
+      w.usedTs.getD (f * (L * P) * k) 0 ≤ s.1 →
+      s.1 ≤ w.usedTs.getD (min ((f + 1) * (L * P)) m * k - 1) 0 → s.1 ∉ w.usedTs → s.2 = 0)
+    (rs : List (Int × Int)) (hrs : w.frameRanges P L false (deltaTs w.dt) = some (some rs)) :
+    sumOver ⟨w.start, w.dt, data⟩ rs = lineTotals (L * P) (pixelSums w.iw data 0) := by
+  have hPL : 0 < L * P := Nat.mul_pos hL hP
+  have hd := deltaTs_bounds w.dt (by omega) hmax
+  rw [frameRanges_excl w hdt hs k hreg.pixelSize P L hPL _] at hrs
+  cases hx : w.lineRangesExcl (L * P) (deltaTs w.dt) with
+  | none => rw [hx] at hrs; cases hrs
+  | some rs' =>
+    rw [hx] at hrs
+    simp only [Option.map_some, Option.some.injEq] at hrs
+    subst hrs
+    exact sum_over_ranges_eq_image_zero w data hlen hdt hs k m r hreg (L * P) hPL _ hd.1 hd.2.1 hzero rs' hx
+
+/-- Non-vacuity: two frames of 2×2 one-sample pixels, one dead sample between the lines of a frame
+    (count 0), two between the frames (counts 7), lead-in (count 5); `dt = 55`, so `δ = 54`. -/
+example :
+    let w : Wave := ⟨1000, 55, [0, 2, 2, 0, 2, 2, 0, 0, 2, 2, 0, 2, 2]⟩
+    let data : List Int := [5, 1, 2, 0, 3, 4, 7, 7, 5, 6, 0, 7, 8]
+    w.Regular 1 8 0 ∧
+    (∀ f, f < numBlocks 8 (2 * 2) → ∀ s ∈ C01.samplesFrom w.start w.dt data,
+      w.usedTs.getD (f * (2 * 2) * 1) 0 ≤ s.1 →
+      s.1 ≤ w.usedTs.getD (min ((f + 1) * (2 * 2)) 8 * 1 - 1) 0 → s.1 ∉ w.usedTs → s.2 = 0) ∧
+    w.frameRanges 2 2 false 54 = some (some [(1055, 1329), (1440, 1714)]) ∧
+    sumOver ⟨1000, 55, data⟩ [(1055, 1329), (1440, 1714)] = [10, 26] ∧
+    lineTotals (2 * 2) (pixelSums w.iw data 0) = [10, 26] := by
+  refine ⟨⟨by decide, by decide, by decide, by decide⟩, by decide, by decide, by decide, by decide⟩
+
+/-- every reported line range lies within the acquisition `[start, start + #samples·dt]` -/
+theorem line_ranges_covered (w : Wave) (hdt : 0 < w.dt) (hs : 0 ≤ w.start) (k : Nat)
+    (hk : w.pixelSize = some k) (P : Nat) (hP : 0 < P) (δ : Int) (h1 : 1 ≤ δ) (h2 : δ ≤ w.dt)
+    (rs : List (Int × Int)) (hrs : w.lineRangesExcl P δ = some rs) :
+    ∀ r ∈ rs, w.start ≤ r.1 ∧ r.2 ≤ w.start + w.iw.length * w.dt := by
+  intro r hr
+  rcases List.getElem_of_mem hr with ⟨l, hl, rfl⟩
+  have hex := (line_range_exact w hdt hs k hk P hP δ h1 h2 rs hrs)
+  have hk0 := pixelSize_pos w k hk
+  have hlt : l * P < w.usedTs.length / k := (lt_numBlocks_iff _ _ _ hP).mp (by rw [← hex.1]; exact hl)
+  have hm := mul_succ_le_of_lt_div _ _ _ hk0 hlt
+  have he2 : min ((l + 1) * P) (w.usedTs.length / k) * k ≤ w.usedTs.length / k * k :=
+    Nat.mul_le_mul_right _ (Nat.min_le_right _ _)
+  have he3 := Nat.div_mul_le_self w.usedTs.length k
+  have hP1 : (l + 1) * P = l * P + P := by rw [Nat.add_mul]; omega
+  have he1 : (l * P + 1) * k ≤ min ((l + 1) * P) (w.usedTs.length / k) * k :=
+    Nat.mul_le_mul_right _ (by omega)
+  rw [Nat.add_mul] at he1
+  rw [line_range_bounds w hdt hs k hk P hP δ rs hrs l hl]
+  simp only
+  rw [getD_eq _ _ (by omega), getD_eq _ _ (by omega)]
+  constructor
+  · exact usedTs_ge w hdt _ (List.getElem_mem _)
+  · have hmem : w.usedTs[min ((l + 1) * P) (w.usedTs.length / k) * k - 1]'(by omega) ∈ w.allTs :=
+      (usedTs_sublist w).subset (List.getElem_mem _)
+    have := times_stop w.dt hdt _ _ _ hmem
+    omega
+
+/-- **Any longer channel on the same timeline**: reducing a channel that starts `pre` samples before the
+    acquisition and ends `post` samples after it (arbitrary values there) over the reported line ranges
+    gives the same sums as reducing the acquisition's own stream — so `sum_over_ranges_eq_image(_zero)`
+    and `sum_over_frame_ranges_eq_image` hold verbatim for such channels (frames: blocks of `L·P`). -/
+theorem sum_over_ranges_longer_channel (w : Wave) (data pre post : List Int)
+    (hlen : data.length = w.iw.length) (hdt : 0 < w.dt) (hs : 0 ≤ w.start) (k : Nat)
+    (hk : w.pixelSize = some k) (P : Nat) (hP : 0 < P) (δ : Int) (h1 : 1 ≤ δ) (h2 : δ ≤ w.dt)
+    (rs : List (Int × Int)) (hrs : w.lineRangesExcl P δ = some rs) :
+    sumOver ⟨w.start - pre.length * w.dt, w.dt, pre ++ (data ++ post)⟩ rs
+      = sumOver ⟨w.start, w.dt, data⟩ rs :=
+  sumOver_extend w.start w.dt hdt pre data post rs (by
+    rw [hlen]; exact line_ranges_covered w hdt hs k hk P hP δ h1 h2 rs hrs)
+
+example :
+    let w : Wave := ⟨1000, 10, [0, 0, 1, 2, 1, 2, 0, 1, 2, 1, 2, 0, 1, 2, 1]⟩
+    let data : List Int := [9, 8, 1, 2, 3, 4, 7, 5, 6, 7, 8, 6, 9, 10, 11]
+    w.lineRangesExcl 2 9 = some [(1020, 1059), (1070, 1109), (1120, 1139)] ∧
+    sumOver ⟨1000 - 2 * 10, 10, [50, 60] ++ (data ++ [70, 80, 90])⟩ [(1020, 1059), (1070, 1109), (1120, 1139)]
+      = [10, 26, 19] := by
+  refine ⟨by decide, by decide⟩
+
+/-! ## Frames with dead time, duration against the ranges, the no-split hypothesis from the duration -/
+
+/-- **Frames with dead time included**: with more than one reconstructed frame every range starts at
+    the frame's first used sample and, for a constant frame period, `t1(f) = t0(f+1)` (exactly
+    contiguous); a scan with a single reconstructed frame has no frame period and reports the exclusive
+    range (`frame_range_exact`). -/
+theorem frame_dead_time_contiguous (w : Wave) (hdt : 0 < w.dt) (k : Nat)
+    (hk : w.pixelSize = some k) (P L : Nat) (hP : 0 < P) (hL : 0 < L) (δ : Int)
+    (ri : List (Int × Int)) (hri : w.frameRanges P L true δ = some (some ri)) :
+    (numBlocks (w.usedTs.length / k) (L * P) = 1 → w.frameRanges P L false δ = some (some ri)) ∧
+    (numBlocks (w.usedTs.length / k) (L * P) ≠ 1 →
+      ri.length = numBlocks (w.usedTs.length / k) (L * P) ∧
+      (∀ (f : Nat) (hf : f < ri.length), ri[f].1 = w.usedTs.getD (f * (L * P) * k) 0) ∧
+      (∀ (f : Nat) (hf : f + 1 < ri.length),
+        w.usedTs.getD ((f + 1) * (L * P) * k) 0 - w.usedTs.getD (f * (L * P) * k) 0
+          = w.usedTs.getD (1 * (L * P) * k) 0 - w.usedTs.getD (0 * (L * P) * k) 0 →
+        ri[f].2 = ri[f + 1].1)) := by
+  constructor
+  · intro h1
+    rw [← frameRanges_single_incl w k hdt hk P L δ h1]; exact hri
+  · intro h1
+    rw [frameRanges_incl_multi w k hdt hk P L δ h1] at hri
+    exact dead_time_contiguous w hdt k hk (L * P) (Nat.mul_pos hL hP) ri hri
+
+/-- **Duration = line time × number of reported line ranges**: for a regular wave the image has one
+    pixel per complete pixel of the stream, hence as many lines as `line_timestamp_ranges()` reports
+    ranges (replaces the definitional `duration_spec` by a statement against the ranges). -/
+theorem duration_lines (w : Wave) (hdt : 0 < w.dt) (hs : 0 ≤ w.start) (k m r : Nat)
+    (hreg : w.Regular k m r) (P : Nat) (hP : 0 < P) (δ : Int)
+    (rs : List (Int × Int)) (hrs : w.lineRangesExcl P δ = some rs) :
+    w.durationNs P = (w.lineTimeNs P).map fun (lt : Int) => lt * (rs.length : Int) := by
+  have hk := hreg.pixelSize
+  rw [lineRangesExcl_spec w hdt hs k hk P hP δ] at hrs
+  injection hrs with hrs
+  subst hrs
+  simp only [List.length_map, List.length_range, Wave.numPix, hreg.numPix]
+  unfold Wave.durationNs
+  rw [hreg.numBoundaries]
+
+example :
+    let w : Wave := ⟨1000, 10, [0, 0, 1, 2, 1, 2, 0, 1, 2, 1, 2, 0, 1, 2, 1]⟩
+    w.Regular 2 5 1 ∧ w.lineRangesExcl 2 9 = some [(1020, 1059), (1070, 1109), (1120, 1139)] ∧
+    w.durationNs 2 = some 150 := by
+  refine ⟨⟨by decide, by decide, by decide, by decide⟩, by decide, by decide⟩
+
+/-- **The no-split hypothesis of `pixel_ts_spec` holds for every acquisition shorter than `2⁶³/k` ns**
+    (292 years / k): `#samples · dt · k < 2⁶³` implies `hspan`, so per-pixel timestamps are the exact
+    floor means, inside the pixel. -/
+theorem pixel_ts_spec_duration (w : Wave) (hdt : 0 < w.dt) (k : Nat) (hk : w.pixelSize = some k)
+    (hpix : (rowsOf k w.usedTs).flatten ≠ [])
+    (hdur : (w.iw.length : Int) * w.dt * k ≤ I64MAX) :
+    w.pixMean = some ((rowsOf k w.usedTs).map fun r => r.sum / (k : Int)) ∧
+    ∀ r ∈ rowsOf k w.usedTs, r.length = k ∧ listMin r ≤ r.sum / (k : Int) ∧ r.sum / (k : Int) ≤ listMax r := by
+  apply pixel_ts_spec w k hk hpix
+  have hin : ∀ x ∈ (rowsOf k w.usedTs).flatten, w.start ≤ x ∧ x + w.dt ≤ w.start + w.iw.length * w.dt := by
+    intro x hx
+    have hxU := rowsOf_flatten_mem k _ x hx
+    exact ⟨usedTs_ge w hdt x hxU, times_stop w.dt hdt _ _ x ((usedTs_sublist w).subset hxU)⟩
+  have h1 := hin _ (listMax_mem _ hpix)
+  have h2 := hin _ (listMin_mem _ hpix)
+  have hle : listMax (rowsOf k w.usedTs).flatten - listMin (rowsOf k w.usedTs).flatten
+      ≤ (w.iw.length : Int) * w.dt := by omega
+  have := Int.mul_le_mul_of_nonneg_right hle (show (0 : Int) ≤ (k : Int) by omega)
+  omega
+
+example :
+    let w : Wave := ⟨1000, 10, [0, 0, 1, 2, 1, 2, 1, 2, 0, 0, 0, 1, 2]⟩
+    w.pixelSize = some 2 ∧ (rowsOf 2 w.usedTs).flatten ≠ [] ∧
+      (w.iw.length : Int) * w.dt * (2 : Nat) ≤ I64MAX := by decide
+
 end Verif.C03
